@@ -29,11 +29,19 @@ TARGETS = [
         ("SimpleValidator", "validate_fee", "C05", "C05_gen_validate_fee"),
     ]),
     dict(area="TxUtil", rel="vls-core/src/util/transaction_utils.rs", consts=[], externals={}, fns=[
-        ("", "expected_commitment_tx_weight", "C05", "C05_gen_commitment_weight"),
+        ("", "expected_commitment_tx_weight", "C05", "C05_gen_commitment_weight", "snippet"),
+        ("", "estimate_feerate_per_kw", "C08", None, "snippet"),
     ]),
     dict(area="Tx", rel="vls-core/src/tx/tx.rs", consts=[], externals={}, fns=[
         ("CommitmentInfo2", "value_to_parties", "C05", "C05_gen_value_to_parties"),
         ("CommitmentInfo2", "total_value", "C05", "C05_gen_total_value"),
+    ]),
+    dict(area="Enforce", rel="vls-core/src/policy/validator.rs", consts=[], externals={}, fns=[
+        ("EnforcementState", "set_next_holder_commit_num", "C03", "C03_gen_set_next_holder_commit_num"),
+        ("EnforcementState", "set_next_counterparty_commit_num", "C03", "C03_gen_set_next_counterparty_commit_num"),
+        ("EnforcementState", "get_previous_counterparty_point", "C03", "C03_gen_get_previous_counterparty_point"),
+        ("EnforcementState", "get_previous_counterparty_commit_info", "C03", "C03_gen_get_previous_counterparty_commit_info"),
+        ("EnforcementState", "set_next_counterparty_revoke_num", "C03", "C03_gen_set_next_counterparty_revoke_num"),
     ]),
     dict(area="Monitor", rel="vls-core/src/monitor.rs", consts=[], externals={}, fns=[
         ("State", "depth_of", "C15", "C15_gen_depth_of"),
@@ -161,12 +169,14 @@ def extract(repo):
     outputs, info = {}, {}
     summary = []
     arms, ddefs, imports = [], [], []
+    snippets = []
     for tg in TARGETS:
         try:
             u = Unit(repo, tg["rel"], "VlsModel.Gen.Fn" + tg["area"], tg.get("consts", ()), tg.get("externals", {}))
         except (RsError, OSError) as e:
             raise ExtractError("x_fn: cannot index %s: %s" % (tg["rel"], e))
-        for impl, name, prop, thm in tg["fns"]:
+        for tup in tg["fns"]:
+            impl, name, prop, thm = tup[:4]
             impl = impl or None
             f = u.try_fn(impl, name)
             qn = (impl + "::" if impl else "") + name
@@ -186,6 +196,12 @@ def extract(repo):
                 "tied_by": thm}
             if thm:
                 ent["obligations"].append("Gen.Fn%s.%s = hand-written model (theorem %s)" % (tg["area"], f.lean_name, thm))
+            if len(tup) > 4 and tup[4] == "snippet":
+                # verbatim source text of a private free function, compiled into the harness (differential test)
+                lines = u.fi.src.split("\n")[f.line - 1:f.end_line]
+                txt = "\n".join(lines)
+                txt = re.sub(r"^(\s*)(pub(\s*\([^)]*\))?\s+)?fn\b", r"\1pub fn", txt, count=1)
+                snippets.append("// %s:%d\n%s\n" % (tg["rel"], f.line, txt))
         outputs["Fn%s.lean" % tg["area"]] = u.emit()
         imports.append("import VlsModel.Gen.Fn%s" % tg["area"])
         dispatch_for(u, tg["area"], [u.fns[k] for k in u.order], arms, ddefs)
@@ -196,4 +212,12 @@ def extract(repo):
          "namespace VlsModel.Gen.FnDispatch", "open VlsModel VlsModel.Gen VlsModel.Drv.FnCodec", ""] + ddefs +
         ["def dispatch : List String → String"] + arms + ['  | _ => "unknown-function"', "",
          "end VlsModel.Gen.FnDispatch"]) + "\n"
+    snip = ("// GENERATED by translate/x_fn.py on every run of bin/check: verbatim source text of private free functions\n"
+            "// of /repo that are translated by rs2lean.py, compiled here so that harness/src/props/fn_gen.rs can run the\n"
+            "// real text against the generated Lean definition.  Do not edit by hand.\n"
+            "#![allow(dead_code, unused_variables)]\n\n" + "\n".join(snippets))
+    sp = os.path.join(HERE, "..", "harness", "src", "props", "fn_gen_snippets.rs")
+    if not os.path.exists(sp) or open(sp).read() != snip:
+        with open(sp, "w") as fh:
+            fh.write(snip)
     return outputs, info
